@@ -42,7 +42,7 @@ func (c *vdCase) pickName(d *mNode, label string) string {
 	if len(d.ents) > 0 && rapid.IntRange(0, 9).Draw(c.rt, label+"_existing") < 6 {
 		return d.ents[rapid.IntRange(0, len(d.ents)-1).Draw(c.rt, label+"_idx")].name
 	}
-	return rapid.SampledFrom(vdAlphabet).Draw(c.rt, label)
+	return rapid.SampledFrom(c.alphabet).Draw(c.rt, label)
 }
 
 func (c *vdCase) noteDirUse(d *mNode, mutating bool) {
@@ -57,11 +57,29 @@ func (c *vdCase) nextTag() string {
 }
 
 func (c *vdCase) nextTarget() string {
-	// Symlink targets are unique per case: the stateless handle
-	// allocators identify symlinks by target, and whether two symlinks
-	// with one target are one node or two is allocator specific.
+	// Symlink targets repeat now and then. The stateless handle allocators
+	// identify symlinks by target: the NFS one hands out one node object
+	// for all linked symlinks with one target, the FUSE one a node per
+	// creation with one inode number; the model follows the allocator in
+	// use (mModel.internSymlinks).
+	if len(c.targets) > 0 && rapid.IntRange(0, 2).Draw(c.rt, "repeat_target") == 0 {
+		c.sawDupTarget = true
+		return c.targets[rapid.IntRange(0, len(c.targets)-1).Draw(c.rt, "target")]
+	}
 	c.symCounter++
-	return fmt.Sprintf("t%d", c.symCounter)
+	t := fmt.Sprintf("t%d", c.symCounter)
+	c.targets = append(c.targets, t)
+	return t
+}
+
+// setRealLeaf records the real object of a leaf node the call just returned;
+// a node that is already known (hard link, interned symlink) must resolve to
+// the object seen before.
+func (c *vdCase) setRealLeaf(where string, n *mNode, leaf virtual.Leaf) {
+	if n.realLeaf != nil && n.realLeaf != leaf {
+		c.failModel("%s returned a different object than the one the reference tree's node %d (%s %s) is known as", where, n.id, n.kind, n.tag)
+	}
+	n.realLeaf = leaf
 }
 
 // checkChangeInfo validates the ChangeInfo of a successful call on d.
@@ -147,7 +165,7 @@ func (c *vdCase) opMknod() {
 		leaf, ci, st = d.realDir.VirtualMknod(c.w.ctx, comp(name), attrs, virtual.AttributesMaskFileType, &out)
 	})
 	if c.checkResult("VirtualMknod", want, vdStatusName(st), true) {
-		child.realLeaf = leaf
+		c.setRealLeaf("VirtualMknod", child, leaf)
 		c.checkChangeInfo("VirtualMknod", d, ci, pre)
 		if got := vdKindOfType(out.GetFileType()); got != kind {
 			c.failModel("VirtualMknod(%s) created a %s", kind, got)
@@ -198,7 +216,9 @@ func (c *vdCase) opLink() {
 	var ci virtual.ChangeInfo
 	var st virtual.Status
 	var out virtual.Attributes
-	c.real(func() { ci, st = d.realDir.VirtualLink(c.w.ctx, comp(name), leaf.realLeaf, virtual.AttributesMaskFileType, &out) })
+	c.real(func() {
+		ci, st = d.realDir.VirtualLink(c.w.ctx, comp(name), leaf.realLeaf, virtual.AttributesMaskFileType, &out)
+	})
 	if c.checkResult("VirtualLink", want, vdStatusName(st), true) {
 		c.checkChangeInfo("VirtualLink", d, ci, pre)
 		c.sawHardLink = true
@@ -229,17 +249,23 @@ func (c *vdCase) opOpen() {
 	if existing {
 		existingOpts = &virtual.OpenExistingOptions{Truncate: truncate}
 	}
-	c.begin(vdStep{Op: "VirtualOpenChild", Dir: c.dname(d), Name: name, Arg: fmt.Sprintf("%s exec=%v share=%d", variant, exec, share)})
+	// O_TRUNC of an existing file can fail in the pool file (one-shot fault).
+	truncFault := truncate && existing && rapid.IntRange(0, 3).Draw(c.rt, "truncate_fails") == 0
+	c.begin(vdStep{Op: "VirtualOpenChild", Dir: c.dname(d), Name: name, Arg: fmt.Sprintf("%s exec=%v share=%d truncateFails=%v", variant, exec, share, truncFault)})
 	pre := c.changeID(d)
 	allocFails := c.w.files.failing || c.w.pool.failing
-	want, node, created := c.m.opOpen(d, name, create, existing, truncate, exec, allocFails)
+	want, node, created := c.m.opOpen(d, name, create, existing, truncate, exec, allocFails, truncFault)
 	var out virtual.Attributes
 	var leaf virtual.Leaf
 	var ci virtual.ChangeInfo
 	var st virtual.Status
+	if truncFault {
+		c.w.pool.arm = vdIOFault{Op: "truncate"}
+	}
 	c.real(func() {
 		leaf, _, ci, st = d.realDir.VirtualOpenChild(c.w.ctx, comp(name), share, createAttrs, existingOpts, virtual.AttributesMaskFileType|virtual.AttributesMaskSizeBytes, &out)
 	})
+	c.w.pool.arm = vdIOFault{}
 	if c.checkResult("VirtualOpenChild", want, vdStatusName(st), true) {
 		c.checkChangeInfo("VirtualOpenChild", d, ci, pre)
 		if created {
@@ -301,7 +327,7 @@ func (c *vdCase) opVirtualLookup() {
 	want := one(rOK)
 	var e *mEnt
 	if !c.m.need(d) {
-		want = one(rLazyFail)
+		want = one(c.m.needFail)
 	} else if e = c.m.lookup(d, name); e == nil {
 		want = one(rNoEnt)
 	}
@@ -329,7 +355,9 @@ func (c *vdCase) opRename() {
 	if rapid.IntRange(0, 39).Draw(c.rt, "foreign_directory") == 0 {
 		c.begin(vdStep{Op: "VirtualRename", Dir: c.dname(dOld), Name: oldName, Dir2: "directory of another file system", Name2: newName})
 		var st virtual.Status
-		c.real(func() { _, _, st = dOld.realDir.VirtualRename(c.w.ctx, comp(oldName), vdForeignDirectory{}, comp(newName)) })
+		c.real(func() {
+			_, _, st = dOld.realDir.VirtualRename(c.w.ctx, comp(oldName), vdForeignDirectory{}, comp(newName))
+		})
 		c.checkResult("VirtualRename", one(rXDev), vdStatusName(st), true)
 		c.finish()
 		return
@@ -353,7 +381,9 @@ func (c *vdCase) opRename() {
 	want := c.m.opRename(dOld, oldName, dNew, newName)
 	var ciOld, ciNew virtual.ChangeInfo
 	var st virtual.Status
-	c.real(func() { ciOld, ciNew, st = dOld.realDir.VirtualRename(c.w.ctx, comp(oldName), dNew.realDir, comp(newName)) })
+	c.real(func() {
+		ciOld, ciNew, st = dOld.realDir.VirtualRename(c.w.ctx, comp(oldName), dNew.realDir, comp(newName))
+	})
 	if st == virtual.StatusErrNotEmpty {
 		c.sawRemoveHard = true
 	}
